@@ -52,7 +52,11 @@ def gen_program(rng, big=False):
         x, y = rng.sample(derived, 2)
         lines.append("%s :- %s." % (x, y))
         lines.append("%s :- %s." % (y, x))
-    qs = rng.sample(atoms, min(len(atoms), rng.choice([1, 2, 2, 3])))
+    qs = []
+    for _ in range(rng.choice([1, 2, 2, 3])):      # queries prefer derived atoms
+        q = rng.choice(derived) if rng.random() < 0.7 else rng.choice(atoms)
+        if q not in qs:
+            qs.append(q)
     for q in qs:
         lines.append("query(%s)." % q)
     if rng.random() < 0.5:
